@@ -12,6 +12,7 @@ Decided:
     with an index field of the buffer; recycle_rx_buffer stores the buffer into the slot of the token returned by the
     new add, after that add succeeded, and records that token in the same index field; can_recv <=> peek_used is
     Some; can_send <=> at least the descriptors of the transmit shape are free.
+ S13 every non-error return of a blocking sender (raw driver or buffer-managing wrapper) follows the submission of the frame.
  S11 the flag's value follows the negotiated VERSION_1 / MRG_RXBUF bits (= C08.H5).
  S10 packet views: RxBuffer-like byte views are bytes[header size .. header size + recorded length], one length field.
  S5 completions consumed with a token read from the used ring use the buffer looked up by that token (C07.T5).
@@ -50,6 +51,7 @@ def run(F, R):
     R.check(sorted(offs.values()) == [0, 1, 2, 4, 6, 8, 10], 'S1', 'header-fields', h12, 'fields at 0,1,2,4,6,8,10', 'virtio_net_hdr field offsets %s' % offs)
     s1_selector(F, R, roles, h12, h10)
     s10_packet_view(F, R, roles, h12, h10)
+    s13_send_always_submits(F, R, M, roles)
     # S11: the selector's value: the legacy-header flag is (not VERSION_1 and not MRG_RXBUF) of the negotiated set, whatever the
     # transport's queue layout (C08.H5) - otherwise both directions use a header of the wrong size
     from .C08 import h5_net
@@ -125,6 +127,45 @@ def s10_packet_view(F, R, roles, h12, h10):
         R.check(len(fields) == 1, 'S10', 'packet-view:one-length-field', 'device::net', 'every packet view uses the one recorded length field %s' % sorted(fields),
                 'packet views use different length fields: %s' % fields)
     R.count('packet_views', n)
+
+
+def s13_send_always_submits(F, R, M, roles):
+    """Frames of every length, the empty one included, reach the device: a blocking sender (a public method of the network drivers
+    that submits readable-only chains and waits, or a wrapper that calls such a method) has no path that returns anything but an
+    explicit error without the submission."""
+    base = set()
+    for b in F.bodies.values():
+        if b.get('impl_adt') not in (RAW, NET) or b['kind'] != 'AssocFn' or not b.get('pub') or not F.handwritten(b):
+            continue
+        sg0 = supergraph(F, b['id'], opaque=lambda t, bb: bb['id'] in roles, tag='c16sb')
+        for n_ in sg0.calls(lambda d: roles.get(d.get('fn')) == 'add_notify_wait_pop'):
+            outs = array_elems(sg0.sym, sg0.sym.operand(n_.id, n_.d['args'][2]))
+            if outs is not None and len(outs) == 0:
+                base.add(b['id'])
+    senders = set(base)
+    for b in F.bodies.values():
+        if b.get('impl_adt') in (RAW, NET) and b['kind'] == 'AssocFn' and b.get('pub') and F.handwritten(b) and b['id'] not in base and \
+                any(bl['term']['k'] == 'call' and bl['term'].get('fn') in base for bl in b['blocks']):
+            senders.add(b['id'])
+    n = 0
+    for fid in sorted(senders):
+        b = F.bodies[fid]
+        sg = supergraph(F, fid, opaque=lambda t, bb: bb['id'] in roles or (bb['id'] in base and bb['id'] != fid), tag='c16s')
+        where = fn_site(F, fid)
+        try:
+            paths = [p for p in PathEnum(sg).run() if not p.panicked]
+        except PathLimit as e:
+            R.abstain('S13', '%s:always-submits' % fid, str(e), where)
+            continue
+        n += 1
+        bad = None
+        for p in paths:
+            sub = any(e[0] == 'call' and (roles.get(e[2]) in ('add_notify_wait_pop', 'add') or (e[2] in base and e[2] != fid)) for e in p.effects)
+            if not sub and err_variant(p.ret) in (None, 'Ok'):
+                bad = 'a path returns %s without handing the frame to the transmit queue' % (fmt(p.ret)[:50] if p.ret is not None else 'normally')
+        R.check(bad is None and bool(paths), 'S13', '%s:always-submits' % fid, where, 'every non-error return follows the submission of the frame',
+                '%s: %s (the caller is told the frame was sent)' % (b['name'], bad))
+    R.count('blocking_senders', n)
 
 
 def s1_selector(F, R, roles, h12, h10):
